@@ -9,6 +9,7 @@ import time
 from typing import Any, Dict, List, Optional, Tuple
 
 from harness.extract import c01_handlers as x_h
+from harness.extract import c01_regs as x_regs
 from harness.extract import episode as x_ep
 from harness.extract import request_schema as x_schema
 from harness.lib import scen
@@ -42,7 +43,17 @@ MANIFEST = {
             "single history append, the fields and the single construction site of AgentHistoryItem and the Literal of "
             "RequestResponse.status are regenerated from source (Gen/Episode.lean, obligations C01_gen_pipeline, C01_gen_history_item); the inventory of leaf request handlers is regenerated "
             "too and every handler returns a RequestResponse by construction on every path, four listed forwarding handlers excepted "
-            "(Gen/EpisodeHandlers.lean against C05x's Gen/RequestSchema.lean, obligation C01_gen_handlers_return_responses).",
+            "(Gen/EpisodeHandlers.lean against C05x's Gen/RequestSchema.lean, obligation C01_gen_handlers_return_responses). "
+            "TOTALITY PROVED for one handler body: SoftwareManager.uninstall (behind node-application-remove and every replacing install) is "
+            "translated statement by statement (Gen/EpisodeRegs.lean) into a statement language whose interpreter raises wherever the "
+            "Python statement can (d[k], d.pop(k), remove_request); on every node reachable in C13's registries model by any operation "
+            "sequence the translated body returns for every name and equals C13's Node.uninstall (C01_uninstall_total, "
+            "C01_uninstall_refines; C01_tidied_uninstall_raises shows the direct-pop variant raising on two applications that share a "
+            "(port, protocol) key). Rig family (e) CO-LOCATED PAIRS: for every action type that names a node and a target inside it, every "
+            "ordered pair of distinct targets of one node / folder / access list (applications incl. every installable one, installed at run "
+            "time by a preceding step; services; files; folders; NICs; users; ACL positions) - all same-type pairs of the types that change "
+            "the inventory, a seeded sample of the other same-type and of the cross-type pairs in quick, all of them plus triples in thorough "
+            "- packed into episodes of the real environment; a failing episode is shrunk to a minimal sequence and action map.",
     "note": "C01-specific: Python exceptions inside handlers/observations/rewards and float overflow are outside the model; totality is "
             "validated by execution only (one or two blue disturbances per episode, one reset seed per scenario and run). Scenario families: "
             "shipped scenarios x generated action maps and members of the generated topology families (switched LAN, routed, firewall+DMZ) "
@@ -53,7 +64,7 @@ MANIFEST = {
                  "with disturbed long episodes sharded over worker processes; standalone agent-totality sweep with search",
     "design_ref": "5/C01",
 }
-MODULES = ["PrimaiteModel.Props.C01", "PrimaiteModel.Props.C01Handlers"]
+MODULES = ["PrimaiteModel.Props.C01", "PrimaiteModel.Props.C01Handlers", "PrimaiteModel.Props.C01Regs"]
 EXE = "drv_c01"
 QUICK = ["data_manipulation", "basic_firewall", "test_primaite_session", "wireless_wan_network_config", "uc7_config"]
 QUICK_DISTURB = ["uc7_config", "uc7_config_tap003", "data_manipulation"]
@@ -864,6 +875,7 @@ def run(ctx: Ctx):
     with lean_lock():
         ctx.extract("Episode", x_ep.emit)
         ctx.extract("EpisodeHandlers", x_h.emit)
+        ctx.extract("EpisodeRegs", x_regs.emit)          # SoftwareManager.uninstall, statement by statement
         ctx.extract("RequestSchema", x_schema.emit)      # C05x's extractor, run here so that the tie is against the CURRENT source
         ctx.prove(MODULES, exes=[EXE], leanchecker=ctx.thorough)
     ctx.cov["rule"] = ("cases = (a) shipped scenario x {shipped action map, generated action maps over every registered action type with existing, "
